@@ -280,7 +280,7 @@ def handleP (d : DSt) : List String → DSt × String
   | ["recv", c, id, tag] =>
     match c.toNat?, id.toNat?, tag.toNat? with
     | some c, some id, some tag =>
-      let held := if d.p.closed c then none else d.p.pending c id
+      let held := d.p.pending c id
       let p := Pipe.step d.ppol d.p (.recvSwap c id tag)
       ({ d with p := p }, match held with | some sl => s!"held={sl}" | none => "held=-")
     | _, _, _ => (d, "bad-op")
